@@ -7,6 +7,9 @@ NOTE = ("Trusted base: the gosmt executor's Go semantics (engine/*.go), z3 4.8.1
         "bounds are those of the harnesses (see DESIGN.md section of the property); inputs beyond them are outside the claim.")
 # id -> (claimed?, level text, design_ref, extra note / N/A reason)
 CHECKS = {
+ "C14": ("For all frame sizes up to the 16-bit field limit the real sendTransaction performs exactly one Write carrying exactly the reference frame; unknown recipients are dropped for all IDs; field prefix = content for all lengths <= 65535 (oversize content is a listed known finding); replies carry flag, request ID and requester for all IDs.", "3/C14", "Atomicity of a single Write call on a TCP connection is assumed; per-handler reply correlation rides on the C05 harnesses."),
+ "C19": ("The schedule of two clients' real Seek/Read steps is a symbolic variable: every interleaving of up to 10 steps is decided; posts are kept newest-first and are on disk when acknowledged for all texts.", "3/C19", "Steps are atomic as in the code (Read/Write hold the store mutex, Seek is one store); os functions are replaced by an in-harness file model. The shared-cursor defect found is a listed known finding."),
+ "C20": ("The system-call sequence of each persistent update is extracted by symbolically executing the real update; the crash index and the partial-write length are symbolic, and at every such point the live file must hold the complete old or complete new document.", "3/C20", "os.WriteFile = create/truncate + write (any proper prefix on crash) + close; rename/remove atomic; yaml.Marshal returns an arbitrary non-empty document; fsync/power-loss ordering is outside the claim. No native replay (crash injection is in the file model)."),
  "C02": ("Chunk-insensitivity of every connection read site is decided by the solver: handshake and transfer preamble for all partitions (symbolic chunk sizes), prefix-stability lemma of the split functions for all data/lengths up to 70000, the real bufio.Scanner and the real upload receive path over a chunking reader for small streams.", "3/C02", "Whole-session equality is composed from the per-site results by argument (handlers only see tokens)."),
  "C06": ("For all 2^64 creator bitmaps and all requested access fields (0..9 bytes) the created account's bits are a subset of the creator's on both creation requests; for all target/requester bitmaps and option bytes a protected target is never banned, disconnected or messaged.", "3/C06", "AccountManager, ban list and connection are recording stubs written in Go in the harness."),
  "C13": ("Inductive step on the real MemClientMgr.Add from an arbitrary 32-bit counter value and an arbitrary live ID: the new ID is never live (covers histories of any length, including counter wrap-around).", "3/C13", "Only the ID-uniqueness and registry part of C13 is decided; notification convergence is not claimed in this revision."),
